@@ -158,6 +158,7 @@ structure Skeleton where
   cvSliceElementwise         : Bool
   cvFallbackError            : Bool
   pxResultChecksValid        : Bool  -- closure proxy: the result is converted iff `rcpRv[0].Elem().IsValid()` (and for no other reason skipped)
+  pxClosureIdPerInvocation   : Bool  -- closure proxy: the closure id is decoded from the proxy's own argument position into a variable of the per-invocation literal, and the CallClosure stub is built there (not shared between parameters, invocations or links)
   pxCtxIsInvocationCtx       : Bool  -- closure proxy: the context of the underlying CallClosure RPC is the proxy's own variable, assigned from the invocation's first argument (not the link context)
   pxArgsFreshPerInvocation   : Bool  -- closure proxy: the []interface{} argument list is built inside the per-invocation literal
   clArgCountChecked          : Bool
@@ -219,6 +220,12 @@ structure Skeleton where
   /- ---------------- utils.Call ---------------- -/
   ucRecovers                 : Bool
   ucNonErrorPanicMapped      : Bool
+  /- ---------------- state: field types of the structs holding panrpc's state, in declaration order ---------------- -/
+  stateRegistry              : List String
+  stateClosureManager        : List String
+  stateBroadcaster           : List String
+  stateChannel               : List String
+  stateWrappedChild          : List String
   /- ---------------- C20 ---------------- -/
   accesses                   : List Access
   locksShared                : Bool  -- every mutex guarding shared state is one object for all users: a pointer field, or a value field of a struct only ever used through a pointer (methods with pointer receivers)
